@@ -103,7 +103,12 @@ def rule_interval_lookup(ctx):
     defs = single_defs(fi.node)
     sel = calls(fi, "select")
     if len(sel) != 1 or len(sel[0].args) < 2:
-        raise AnalysisError("transform_quantitative_feature: the select(masks, labels) call was not found")
+        # must-pass-through: the labelling of a quantitative value is the first fitted boundary it does
+        # not exceed, expressed as select(masks, labels) over the same fitted order; another lookup
+        # scheme is not recognised as that mapping
+        ctx.ob(R, construct(fi, "mask k and label k belong to the same group, in fitted order"), False, loc(fi),
+               "the select(masks, labels) lookup over the fitted boundaries was not found: the value -> label mapping is computed some other way (fixed-width arrays truncate labels, searchsorted changes the side of a boundary ...)")
+        return
     masks, labels = sel[0].args[0], sel[0].args[1]
     masks = defs.get(masks.id) if isinstance(masks, ast.Name) else masks
     labels = defs.get(labels.id) if isinstance(labels, ast.Name) else labels
